@@ -35,6 +35,12 @@ def closed_world(prog: Program, res) -> None:
                     what = n.func.id
             elif isinstance(n, ast.Attribute) and n.attr in _FORBIDDEN_ATTRS:
                 what = n.attr
+                if n.attr == "__class__" and isinstance(n.ctx, ast.Load):
+                    p_ = parent(n)
+                    if isinstance(p_, ast.Attribute) and p_.attr in ("__name__", "__qualname__", "__module__") \
+                            and isinstance(p_.ctx, ast.Load):
+                        seen_allowed.add(("<any>", "__class__.__name__"))
+                        continue          # reading the name of the class (messages, the `name` properties): no reflection
             elif isinstance(n, (ast.Import, ast.ImportFrom)):
                 names = [a.name for a in n.names] + ([n.module] if isinstance(n, ast.ImportFrom) and n.module else [])
                 if any(x and x.split(".")[0] in ("importlib", "ctypes", "gc", "inspect") for x in names):
